@@ -10,7 +10,7 @@ import time
 from vx import typegen as tg, values as V
 from vx.report import Report, run_parallel, tier, seed
 from vx.wenv import ConcEnv
-from checks import wmode, hmode
+from checks import wmode, hmode, kmode
 from vx import hybrid as HY
 
 try:
@@ -30,6 +30,8 @@ CONC_DEFAULTS = {
 
 def sample_value(t, gen):
     g = V.Gen(gen.get("variant", 0), gen.get("dim", 2), gen.get("nullrefs", False))
+    if t[0] == "kernel":
+        return None
     if HY.is_h(t):
         v = g.sample(HY.xo_ast(t))
         if gen.get("defaults"):
@@ -76,6 +78,8 @@ def norm_what(what):
 def shape_class(t):
     """coarse class of a type for finding signatures"""
     k = t[0]
+    if k == "kernel":
+        return "K:" + t[1]
     if k == "hybrid":
         return "H:" + shape_class(HY.xo_ast(t))
     if k == "scalar":
@@ -350,7 +354,27 @@ def plan_hybrid(pid, tr, sd):
     return out
 
 
+def plan_kernel(pid, tr, sd):
+    pls = PLACEMENTS_Q if tr == "quick" else PLACEMENTS_T
+    hs = [[], [("grow",)], [("alloc",), ("more",)], [("more",), ("grow",), ("alloc",)]]
+    jobs = []
+    for gi, group in enumerate(("objects", "arrays", "scalars", "arity")):
+        for k, h in enumerate(hs if group in ("objects", "arrays") else hs[:1]):
+            for pi, pl in enumerate([pls[0], pls[4]] + ([pls[3], dict(placement="default", N=2, alignment=8), dict(placement="default", N=1, alignment=1, kind="BufferNumpy")] if tr == "thorough" else [])):
+                if pl.get("placement") not in ("default", "grown", "packed"):
+                    continue
+                cfg = dict(pl, history=h, omp=(0 if (gi + k + pi) % 2 == 0 else 2), kinds=["BufferNumpy"], max_paths=300)
+                if cfg.get("placement") == "packed":
+                    cfg["placement"] = "default"
+                if cfg.get("N", 0) >= 1 and cfg.get("placement") != "grown":
+                    cfg["roomy"] = 1 << 14
+                jobs.append((pid, "c17", group, ("kernel", group), dict(variant=0, dim=2), cfg))
+    return jobs
+
+
 def plan(pid, tr, sd):
+    if pid == "C17":
+        return plan_kernel(pid, tr, sd)
     if pid in ("C18",):
         return plan_hybrid(pid, tr, sd)
     hjobs = plan_hybrid(pid, tr, sd) if pid in ("C19", "C20") else []
@@ -533,7 +557,7 @@ def xo_array_fns():
     return [xo.array.MetaArray.__new__, xa.get_strides, xa.get_offset, xa.bound_check, xa.rewrite_item, xo.struct.MetaStruct.__new__, xo.Struct._set_offsets, xo.string.MetaString._inspect_args]
 
 
-LEVELS = {p: "model_checking" for p in ("C01", "C03", "C05", "C06", "C08", "C09", "C10", "C11", "C20", "C18", "C19")}
+LEVELS = {p: "model_checking" for p in ("C01", "C03", "C05", "C06", "C08", "C09", "C10", "C11", "C20", "C18", "C19", "C17")}
 
 
 def main(pid):
@@ -574,7 +598,7 @@ def main(pid):
             rep.add_function(fn)
     # validation of the storage model (S9) and of the harness: the same scenarios, concretely, on both real buffer kinds
     step = 1 if tr == "thorough" else 2
-    vjobs = [(j, k) for i, j in enumerate(jobs) if i % step == 0 for k in ("BufferNumpy", "BufferByteArray")]
+    vjobs = [(j, k) for i, j in enumerate(jobs) if i % step == 0 for k in j[5].get("kinds", ("BufferNumpy", "BufferByteArray"))]
     vres = run_parallel(_conc_job, vjobs)
     nval = 0
     for (job, kind), (fails, unreachable) in zip(vjobs, vres):
